@@ -1,3 +1,4 @@
-From Coq Require Import ZArith QArith List Bool Arith Lia.
-From QE Require Import Base.Num C02.Model.
-Import ListNotations.
+(* C02 proofs: Proofs1 (sums over Q, elimination step, no-subtraction invariant), Proofs2 (reduction as a matrix
+   sequence, back-substitution recurrence), Proofs3 (censoring induction), Proofs4 (gth over Q: final theorems),
+   Proofs5 (rows of MarkovChain.stationary_distributions). *)
+From QE Require Export C02.Proofs1 C02.Proofs2 C02.Proofs3 C02.Proofs4 C02.Proofs5.
